@@ -6,7 +6,7 @@ from . import mirror
 
 PID = "C01"
 META = {
-    "explanation": "Static analysis of the writer/reader bookkeeping on the compiler's MIR of the current tree (default and all-features builds): entry count incremented once per insert and plumbed to trailer and Reader::len (R1), codec plumbing on both sides (R2), codec dispatch tables and from_u8 on all 256 ids (R3), every block write paired with a parent index entry whose offset is read before the write (R4), finish order with the trailer last (R5), depth arithmetic (R6), mirror agreement of forward/backward twins (R7), pending non-empty block always flushed (R8). These are necessary conditions of an exact round trip; byte equality through the codec crates is not decided.",
+    "explanation": "Static analysis of the writer/reader bookkeeping on the compiler's MIR of the current tree (default and all-features builds): entry count incremented once per insert and plumbed to trailer and Reader::len (R1), codec plumbing on both sides (R2), codec dispatch tables and from_u8 on all 256 ids (R3), every block write paired with a parent index entry whose offset is read before the write (R4), finish order with the trailer last (R5), depth arithmetic (R6), mirror agreement of forward/backward twins (R7), pending non-empty block always flushed (R8). These are necessary conditions of an exact round trip; byte equality through the codec crates is not decided. (R11) the entry frame written by BlockWriter::insert agrees with the regions Block::entry_at reads, and every end-of-payload test of entry_at, in linear form over the frame's fields, can only reject malformed data.",
     "assumptions": ["the codec crates return the bytes they were given", "std Vec/slice/Option semantics"],
 }
 
